@@ -2,6 +2,17 @@
 HOOK_COMMITS = ["645c65a"]
 NOT_APPLICABLE = {}
 LEVELS = {
+    "C06": {
+        "text": "Proof: C06_gnosis_iff is an IFF characterisation of the Gnosis signature validator for every keyper set, threshold, signer "
+                "list, signature list and every signature scheme (exactly threshold strictly increasing in-range signers, one signature "
+                "each, each recovering to its signer over the five signed fields); C06_tamper (changing any signed field invalidates, under "
+                "the stated unforgeability hypothesis); C06_service_unsigned / C06_service_signed for the service flavour with its single "
+                "exception. The model is tied to both real validators by exhaustive small-scope and sampled differential runs with real "
+                "ECDSA keys; the implementation's verdicts are also checked against an independent definition of a genuine threshold.",
+        "design_ref": "DESIGN.md §4 C06",
+        "note": "Trusted: Lean kernel; correspondence harness; secp256k1 recovery/verification and fastssz hashing as oracles; Binding hypothesis.",
+        "technique": "Lean 4 iff-theorem over an abstract signature scheme + exhaustive small-scope differential runs with real ECDSA",
+    },
     "C18": {
         "text": "Proof: C18_blocked — for all well-formed operation/route tables, all methods, all request paths (as the router sees them and "
                 "as the gate sees them, related by percent-decoding) and all iteration orders of the paths map: a request that the router "
